@@ -254,6 +254,7 @@ def mini_scenario(
     seed: int = 3,
     obs_variant: str = "exact",
     green_busy: bool = False,
+    save_actions: bool = False,
 ):
     """kind: 'switched' (2 hosts + server on a switch) or 'routed' (host - router - server).
     obs_variant: 'exact' (as many components listed as the num_* sizes), 'surplus' (more services / applications /
@@ -360,6 +361,9 @@ def mini_scenario(
     acts.append(("node-application-remove", {"node_name": "client_1", "application_name": "nmap"}))
     # the application the GREEN agent uses and is rewarded for, removed by the defender (possibly in the very step it is used)
     acts.append(("node-application-remove", {"node_name": "client_2", "application_name": "web-browser"}))
+    # actions whose options carry addresses (they end up in the per-episode action log that reset() writes)
+    acts.append(("configure-dos-bot", {"node_name": "client_1", "target_ip_address": lan_b + ".10", "max_sessions": 3}))
+    acts.append(("node-nmap-ping-scan", {"source_node": "client_1", "target_ip_address": lan_b + ".10", "show": False}))
     acts += list(extra_actions)
     action_map = {i: {"action": a, "options": o} for i, (a, o) in enumerate(acts)}
     if action_order == "desc":  # same numbering, listed in another order (legal: the schema only wants every number present)
@@ -436,7 +440,7 @@ def mini_scenario(
     )
     return {
         "metadata": {"version": 3.0},
-        "io_settings": {"save_agent_actions": False, "save_step_metadata": False, "save_pcap_logs": False, "save_sys_logs": False, "save_agent_logs": False},
+        "io_settings": {"save_agent_actions": bool(save_actions), "save_step_metadata": False, "save_pcap_logs": False, "save_sys_logs": False, "save_agent_logs": False},
         "game": {"max_episode_length": max_episode_length, "ports": ["ARP", "DNS", "HTTP", "POSTGRES_SERVER", "FTP"], "protocols": ["ICMP", "TCP", "UDP"], "seed": seed,
                  "thresholds": {"nmne": {"high": 10, "medium": 5, "low": 0}, "file_access": {"high": 10, "medium": 5, "low": 2}, "app_executions": {"high": 5, "medium": 3, "low": 2}}},
         "agents": agents,
